@@ -106,8 +106,19 @@ func runC32(c *Ctx) {
 			passIdx := -1
 			for i, s := range b.Succs {
 				if r, ok := s.Instrs[len(s.Instrs)-1].(*ssa.Return); ok && len(s.Instrs) <= 2 {
-					if idx := errorResultIndex(fn); idx >= 0 && isNilConst(r.Results[idx]) {
-						passIdx = i
+					if idx := errorResultIndex(fn); idx >= 0 {
+						rv := r.Results[idx]
+						// a result variable: what it holds when the return is entered from this branch
+						if ph, isPhi := rv.(*ssa.Phi); isPhi && ph.Block() == s {
+							for pi, p := range s.Preds {
+								if p == b && pi < len(ph.Edges) {
+									rv = ph.Edges[pi]
+								}
+							}
+						}
+						if isNilConst(rv) {
+							passIdx = i
+						}
 					}
 				}
 			}
